@@ -100,6 +100,10 @@ Proof.
     pose proof (broadcast_reqs h now n msg (seq 0 (c_nnodes cfg))) as Hb.
     destruct (Sim.broadcast A cfg h now n msg (seq 0 (c_nnodes cfg))) as [h1 q]. simpl.
     destruct Hb as (Hb & _). intros ts p Hin. destruct (Hb _ Hin) as (d & _ & _ & [= -> ->]). apply deliver_time_future.
+  - destruct (negb (has_comm cfg)); [intros ? ? []|]. destruct (Nat.eqb dst n); [intros ? ? []|].
+    pose proof (broadcast_reqs h now n msg (seq 0 (c_nnodes cfg))) as Hb.
+    destruct (Sim.broadcast A cfg h now n msg (seq 0 (c_nnodes cfg))) as [h1 q]. simpl.
+    destruct Hb as (Hb & _). intros ts p Hin. destruct (Hb _ Hin) as (d & _ & _ & [= -> ->]). apply deliver_time_future.
   - destruct (negb (has_mob cfg)); intros ? ? [].
   - destruct (negb (has_mob cfg)); intros ? ? [].
   - destruct (negb (has_mob cfg)); intros ? ? [].
@@ -208,6 +212,9 @@ Proof.
     end; try reflexivity.
   - pose proof (transmit_reqs h now n n0 msg) as Ht. destruct (Sim.transmit A cfg h now n n0 msg) as [h1 q]. simpl.
     destruct Ht as (_ & _ & _ & _ & _ & _ & _ & -> & _). reflexivity.
+  - pose proof (broadcast_reqs h now n msg (seq 0 (c_nnodes cfg))) as Hb.
+    destruct (Sim.broadcast A cfg h now n msg (seq 0 (c_nnodes cfg))) as [h1 q]. simpl.
+    destruct Hb as (_ & _ & _ & _ & _ & _ & _ & -> & _). reflexivity.
   - pose proof (broadcast_reqs h now n msg (seq 0 (c_nnodes cfg))) as Hb.
     destruct (Sim.broadcast A cfg h now n msg (seq 0 (c_nnodes cfg))) as [h1 q]. simpl.
     destruct Hb as (_ & _ & _ & _ & _ & _ & _ & -> & _). reflexivity.
